@@ -99,12 +99,23 @@ def build_harness(cmds=None, race=False):
             alt = os.path.join(BUILD, "go.alt.mod")
             open(alt, "w").write(txt.replace("=> /repo", "=> " + REPO))
             shutil.copy(dst, os.path.join(BUILD, "go.alt.sum"))
-        pk = ["./cmd/" + c for c in cmds] if cmds else ["./cmd/..."]
+        tolerant = cmds is None
+        if cmds is None:
+            cmds = sorted(d for d in os.listdir(os.path.join(HARNESS, "cmd")) if os.path.isdir(os.path.join(HARNESS, "cmd", d)))
         out = BIN + ("-race" if race else "") + "/"
         os.makedirs(out, exist_ok=True)
-        cmd = ["go", "build", "-tags", "verif"] + (["-race"] if race else []) + \
-              (["-modfile", os.path.join(BUILD, "go.alt.mod")] if REPO != "/repo" else []) + ["-o", out] + pk
-        rc, log = sh(cmd, timeout=1500, cwd=HARNESS)
+        base = ["go", "build", "-tags", "verif"] + (["-race"] if race else []) + \
+               (["-modfile", os.path.join(BUILD, "go.alt.mod")] if REPO != "/repo" else []) + ["-o", out]
+        rc, log = sh(base + ["./cmd/" + c for c in cmds], timeout=1500, cwd=HARNESS)
+        if rc != 0 and tolerant:
+            # build every command on its own so that one broken command does not block the others
+            failed = []
+            for c in cmds:
+                rc1, log1 = sh(base + ["./cmd/" + c], timeout=1500, cwd=HARNESS)
+                if rc1 != 0:
+                    failed.append((c, log1))
+            build_harness.failed = failed
+            rc = 0
         if rc != 0:
             raise BuildError("go build of harness (tags verif) failed", log)
     return out
